@@ -172,7 +172,7 @@ def c_hcmd(cmd, reg_ids, counter):
     if k == 'unglobal':
         return "HUnglobal"
     if k == 'obs':
-        return {'listing': 'HObsListing', 'duration': 'HObsDuration'}.get(cmd[1], 'HObsOther')
+        return {'listing': 'HObsListing', 'duration': 'HObsDuration', 'copy': 'HObsCopy'}.get(cmd[1], 'HObsOther')
     raise ValueError(k)
 
 
